@@ -21,10 +21,7 @@ HEADER = ("Require Import SqlV.Base SqlV.PrecSpec SqlV.Pratt SqlV.PrinterCore Sq
 PREFIX = {"Plus": "+", "Minus": "-", "Tilde": "~", "AtSign": "@", "DoubleExclamationMark": "!!",
           "PGSquareRoot": "|/", "PGCubeRoot": "||/"}
 CORE_KNOWN = {
-    "C01": {
-        "core:ilike-any-escape": "`a ILIKE ANY b ESCAPE 'c'` prints `ILIKE ANYb ESCAPE 'c'` (Display for Expr::ILike: \"ANY\" without the blank in the ESCAPE arm)",
-        "core:postfix-pair:!!": "PostgreSQL `a ! !` prints `a!!` which lexes as the prefix operator `!!`",
-    },
+    "C01": {},
     "C05": {
         "core:like-escape-word": "`a LIKE b ESCAPE c` (unquoted word accepted by parse_literal_string) prints `ESCAPE 'c'`: the identifier becomes a string literal",
     },
